@@ -9,6 +9,8 @@
 //	    (moves the write/read positions next to a segment / ring boundary).
 //	    ops: e = Enqueue(next message of this thread: sender tid+1, seq 0,1,…) · d = Dequeue
 //	    results: ok | full | nil | <sender>.<seq>; final = the sequential drain
+//	    schedule entries: `<tid>` one atomic step · `<tid>*` run the thread to the start of its next operation ·
+//	    `pct <seed> <depth> <k>` (vlib's online PCT scheduler)
 //	script <kind> [cap] | tokens
 //	    engine E2 through a real actor system, ONE sender goroutine, the actor is gated until everything is
 //	    sent, so the mailbox content is exactly the script: t<id> Tell · b<id>,<id>,… BatchTell · S enter
@@ -109,9 +111,10 @@ func (o *mbObj) enqueue(sender, seq int) string {
 }
 
 func (o *mbObj) Do(tid int, op string) string {
-	if o.kind == "bounded" {
-		vsched.Point("op") // uninstrumented third-party buffer: a whole operation is one step
-	}
+	// every operation starts at a point of its own: it is the macro-step boundary (`<tid>*` in a schedule
+	// runs the thread to its next operation), and for the uninstrumented third-party buffer behind
+	// BoundedMailbox it makes a whole operation one step
+	vsched.Point("op")
 	switch op {
 	case "e":
 		seq := o.next[tid]
@@ -122,6 +125,9 @@ func (o *mbObj) Do(tid int, op string) string {
 	}
 	return "bad-op"
 }
+
+// Boundary: macro steps end where the next operation begins.
+func (o *mbObj) Boundary(label string) bool { return label == "op" }
 
 func (o *mbObj) Final() string {
 	var out []string
